@@ -1,5 +1,7 @@
 package geom
 
+import "math"
+
 // Withiner is an interface for types that can be determined to be
 // within a polygon or not.
 type Withiner interface {
@@ -107,5 +109,12 @@ func rayIntersectsSegment(p, a, b Point) bool {
 			return true
 		}
 	}
-	return (p.Y-a.Y)/(p.X-a.X) >= (b.Y-a.Y)/(b.X-a.X)
+	dy1, dx1, dy2, dx2 := p.Y-a.Y, p.X-a.X, b.Y-a.Y, b.X-a.X
+	if math.IsInf(dy1, 0) || math.IsInf(dx1, 0) || math.IsInf(dy2, 0) || math.IsInf(dx2, 0) {
+		// The difference of two coordinates of opposite sign near the end of
+		// the float64 range is not representable: compare the slopes of the
+		// figure scaled by one half, which are the same.
+		dy1, dx1, dy2, dx2 = p.Y/2-a.Y/2, p.X/2-a.X/2, b.Y/2-a.Y/2, b.X/2-a.X/2
+	}
+	return dy1/dx1 >= dy2/dx2
 }
